@@ -64,6 +64,9 @@ class Heartbeat(core.Scenario):
             self.sid = peer.sid_of(peer.open_polling(w))
             if self.tr == 'websocket':
                 self.ws = peer.do_upgrade(w, self.sid)
+        # a crowd: other sessions opened at the same instant whose clients are gone from the start (the monitor has several
+        # dead sessions to find in one sweep)
+        self.crowd = [peer.sid_of(peer.open_polling(w)) for _ in range(p.get('crowd', 0))]
         self.polls = []
         self.pings_seen = []        # instants at which the client saw a PING
         self.pong_at = []           # instants at which the client sent a PONG
@@ -252,6 +255,14 @@ class Heartbeat(core.Scenario):
                     self.flag('poll_timeout_left_session_open', 'poll held the full %.3f but the session was not closed' % held, trigger=trig)
             if r.exc:
                 self.flag('exception_escaped', 'poll raised %s' % r.exc['type'], trigger=trig)
+        if self.crowd and p['monitor']:
+            bound_c = t0 + iv + 3 * to
+            for cs in self.crowd:
+                dc = [e for e in w.events if e[0] == 'disconnect' and e[1] == cs]
+                if not dc or dc[0][3] > bound_c + EPS:
+                    self.flag('dead_peer_dropped_late' if dc else 'dead_peer_not_dropped',
+                              'one of %d silent sessions opened together: disconnect %r, bound %.3f (ping_interval + 3 x ping_timeout after OPEN)'
+                              % (len(self.crowd) + 1, [(d[2], d[3]) for d in dc], bound_c), trigger=trig + '/crowd')
         if disc and self.sid in w.live_sids():
             self.flag('disconnected_but_alive', 'session still live after its disconnect event', trigger=trig)
 
@@ -276,6 +287,11 @@ def param_list(ctx):
             for mon in (True, False):
                 ps.append({'impl': impl, 'grid': list(g), 'transport': 'ws_dropped', 'delays': [], 'mode': 'vanish', 'monitor': mon,
                            'send_at': None if mon else g[0] + g[1] + 0.25})
+        for g in grid:
+            for tr in ('polling', 'websocket'):
+                for k in (2, 4):
+                    ps.append({'impl': impl, 'grid': list(g), 'transport': tr, 'delays': [], 'mode': 'vanish', 'monitor': True,
+                               'send_at': None, 'crowd': k})
         for g in grid:
             iv, to, gr = g
             for tr in ('polling', 'websocket') + (() if ctx.quick else ('ws_only',)):
